@@ -150,6 +150,16 @@ CHECKS['C18'] = dict(
     note='Trusted: Lean kernel; the history harness.',
     design='7 (C18)')
 
+CHECKS['C19'] = dict(
+    technique='Lean 4 model of the translator front end (elabSyn) with theorems that operator and constructor spellings elaborate to the same expression + operator table of the metagrammar regenerated from grammar.txt and proved equal to the documented grouping (T3) + spelling/layout differential correspondence',
+    text=('Proof: C19_sugar (e?/Opt, e*/List, e+/Some, >>/Right, <</Left, ///Sep, /?/Sep(allow_trailer=True), [a,b]/Seq elaborate to the very same expression), C19_repeat (e{m,n}/List(min_len,max_len)), C19_choice (a|b/Choice for non-choice operands), '
+          'Tie.metaTable_grouping (the rows of the Expr operator table that generation 1 reads from grammar.txt, regenerated on every run, are the documented ones in the documented order: by C02 un-parenthesised operators group accordingly). '
+          'Tie: every generated expression is rendered in random combinations of alternative spellings and layouts; the real parser + translator must produce the same prepared expression objects and the compiled parsers the same outcomes; '
+          'un-parenthesised operator chains are compared with their documented grouping; every description is also compared with the Lean meaning (prepare + peg) of the expression it spells (the generator tree, independent of the real translator). '
+          'PARTIAL: layout clauses (comments, newlines, ";", redundant parentheses) are decided by running the real description parser only.'),
+    note='Trusted as for C01; translator T3 (harness/meta2lean.py).',
+    design='7 (C19), 4.1 T3')
+
 NOT_YET = {
 }
 
